@@ -195,7 +195,7 @@ func runLimitGrid(t *testing.T, sec *vk.Section, maxN int, exhaustive bool) {
 // io.ReadAll and io.Copy.
 func TestLimitSweepExhaustive(t *testing.T) {
 	sec := vk.Sec("LimitSweepExhaustive")
-	runLimitGrid(t, sec, vk.Pick(5, 7), true)
+	runLimitGrid(t, sec, vk.Pick(5, 8), true)
 	sec.SetExhaustive()
 }
 
@@ -206,7 +206,7 @@ func TestLimitSweepFamilies(t *testing.T) {
 
 func TestLimitRapid(t *testing.T) {
 	sec := vk.Sec("LimitRapid")
-	vk.Check(t, 6000, 400000, func(rt *rapid.T) {
+	vk.Check(t, 60000, 30000000, func(rt *rapid.T) {
 		N := rapid.OneOf(rapid.IntRange(0, 16), rapid.IntRange(0, 300), rapid.SampledFrom([]int{511, 512, 513, 1024, 4096})).Draw(rt, "N")
 		var L int
 		switch rapid.IntRange(0, 3).Draw(rt, "lenClass") {
